@@ -27,7 +27,30 @@ def _self_mutations(fi, allow=("pop",)):
         for t_ in tg:
             if isinstance(t_, ast.Subscript) and U(t_.value) == "self":
                 others.append(s)
+    # … and calls of the collection's own in-place methods (self.remove_small(), self.clear() …): methods of the same class
+    # that themselves modify the list
+    ci = getattr(fi, "cls", None)
+    if ci is not None and _depth[0] == 0:
+        _depth[0] += 1
+        try:
+            mutating = set()
+            for name, lst in ci.methods.items():
+                if name == fi.name or name.startswith("__"):
+                    continue
+                for g in lst:
+                    direct = _self_mutations(g, allow=())
+                    via_super = [c for c in ast.walk(g.node) if isinstance(c, ast.Call) and U(c.func) in ("super().append", "super().extend", "super().insert", "super().clear", "super().pop", "super().remove")]
+                    if direct or via_super:
+                        mutating.add(name)
+            for s in ast.walk(fi.node):
+                if isinstance(s, ast.Call) and isinstance(s.func, ast.Attribute) and U(s.func.value) == "self" and s.func.attr in mutating and s.func.attr not in allow:
+                    others.append(s)
+        finally:
+            _depth[0] -= 1
     return others
+
+
+_depth = [0]
 
 
 def check_remove_overlapping(ctx):
@@ -1117,7 +1140,17 @@ def check_trajectory_axis(ctx, rule="STAT"):
         ok = ax is not None and U(ax) == "0"
         ctx.decide(ok, rule, f"{q}:time-axis#{k}", (fi, c), "the filter runs along axis 0 (time)",
                    f"`{U(c)[:80]}` filters along {'axis ' + U(ax) if ax is not None else 'the default (last) axis'}: for vector attributes (position) the coordinates of one time point are mixed instead of smoothing over time")
-    if not calls:
+    # a filter that acts on *all* axes of the (time, component…) array also blurs the components of one time point into each other
+    nd = [c for c in fv.calls() if (fv.callee(c) or U(c.func)).split(".")[-1] in ("gaussian_filter", "uniform_filter", "convolve", "correlate", "generic_filter", "maximum_filter", "minimum_filter",
+                                                                                "percentile_filter", "rank_filter", "gaussian_laplace", "gaussian_gradient_magnitude")]
+    for k, c in enumerate(nd):
+        axes = kwarg(c, "axes")
+        sig = arg_or_kw(c, 1, "sigma")
+        per_axis = sig is not None and isinstance(sig, (ast.Tuple, ast.List))  # (s, 0, …): explicit no-smoothing along the components
+        ctx.decide((axes is not None and U(axes) in ("0", "(0,)", "[0]")) or per_axis, rule, f"{q}:time-axis#nd{k}", (fi, c), "the n-d filter is restricted to axis 0 (time)",
+                   f"`{U(c)[:80]}` smooths along every axis of the trajectory array: for vector attributes (position in 2-d/3-d) the x, y, z values of one time point are averaged with each other, "
+                   "so a droplet at rest appears displaced — the trajectory no longer equals its definition over the members")
+    if not calls and not nd:
         ctx.undecided(rule, q, fi, "no 1-d filter found")
 
 
@@ -1283,3 +1316,72 @@ def check_weighted_mean(ctx, rule="STAT"):
                    f"`{U(r.value)[:70]}` divides by the total weight `{den}` without excluding {den} == 0 (guards: {sorted(texts)[:4]}): when every collected member has surface area 0 "
                    "(radius 0) the result is 0/0 or ZeroDivisionError instead of None")
     return n
+
+
+def check_list_appends(ctx, rule="PAIR"):
+    """The list-like collections (Emulsion, DropletTrackList) store every item they are asked to append: an `append` override
+    stores through `super().append(…)` exactly once on every path that does not raise (a "skip if already present" test
+    compares tracks / droplets by *value*, so equal but distinct members are silently lost), and no override exists that the
+    tracking code would bypass."""
+    m = ctx.model
+    from ..astutil import count_on_normal_paths
+
+    n = 0
+    for cname in ("Emulsion", "DropletTrackList"):
+        ci = m.cls(cname)
+        if ci is None:
+            continue
+        lst = ci.methods.get("append", [])
+        if not lst:
+            n += 1
+            ctx.hold(rule, f"{ci.qualname}.append:stores-once", ci.node, "inherits list.append: every appended item is stored")
+            continue
+        fi = lst[0]
+        fv = view(m, fi)
+        stores = [c for c in fv.calls() if U(c.func) in ("super().append", "list.append")]
+        counts = count_on_normal_paths(fv, stores) if stores else {0}
+        n += 1
+        ctx.decide(counts == {1}, rule, f"{ci.qualname}.append:stores-once", (fi, stores[0]) if stores else fi,
+                   "every call that does not raise stores the item exactly once",
+                   f"{cname}.append stores the item {sorted(counts)} time(s) depending on the path: an item can be dropped silently (e.g. `if x not in self` compares by value, so a second, equal "
+                   "droplet or freshly started track is lost) or stored twice — the collection no longer equals the list model")
+    return n
+
+
+def check_bbox_union(ctx, rule="STAT"):
+    """The bounding box of an emulsion is the union of its members' own boxes (`droplet.bbox`, summed as Cuboids).  A version
+    that recomputes it from centre positions and radii is a different quantity: the outermost *centre* need not belong to the
+    droplet that reaches furthest, and a member's own box is not `position ± radius` for every droplet class."""
+    m = ctx.model
+    q = f"{EM}.Emulsion.bbox"
+    if not m.has_func(q):
+        return 0
+    fi = m.func(q)
+    # member variables: targets of loops / comprehensions over self (or slices of self)
+    member_vars = set()
+    for n in ast.walk(fi.node):
+        gens = n.generators if isinstance(n, (ast.ListComp, ast.GeneratorExp, ast.SetComp)) else ([n] if isinstance(n, ast.For) else [])
+        for g in gens:
+            it = g.iter
+            while isinstance(it, ast.Subscript):
+                it = it.value
+            if isinstance(it, ast.Name) and it.id == "self" and isinstance(g.target, ast.Name):
+                member_vars.add(g.target.id)
+    used = set()
+    first = None
+    for n in ast.walk(fi.node):
+        if isinstance(n, ast.Attribute):
+            base = n.value
+            if isinstance(base, ast.Name) and base.id in member_vars:
+                used.add(n.attr)
+                if n.attr != "bbox":
+                    first = first or n
+            elif isinstance(base, ast.Subscript) and U(base.value) == "self":
+                used.add(n.attr)
+                if n.attr != "bbox":
+                    first = first or n
+    ok = "bbox" in used and used <= {"bbox"}
+    ctx.decide(ok, rule, fi.qualname + ":union", (fi, first) if first is not None else fi, "the emulsion's box is built from the members' own boxes only",
+               f"Emulsion.bbox reads {sorted(used - {'bbox'}) or 'nothing'} of its members instead of (only) their `.bbox`: the box is not the union of the members' boxes (the droplet with the outermost centre "
+               "is not the one that reaches furthest when radii differ; ties make the result depend on the member order)")
+    return 1
